@@ -30,7 +30,7 @@ class ChildrenProgram(MailboxProgram):
             self.add_task(st, f"loopC{i}", lp)
             self.put(st, f"c{i}", a)
         # the parent owns what it will register in started(): a clone if the child is also held outside
-        for (h, how, kept) in self.children_spec:
+        for (h, how, kept, *_par) in self.children_spec:
             if kept:
                 st, c = self.call(st, '<Addr<A> as Clone>::clone', [self.href(st, h)])
                 self.put(st, '_reg_' + h, c)
@@ -49,21 +49,25 @@ class ChildrenProgram(MailboxProgram):
 
 def oracle_children(tr, status, spec):
     """C16.  spec['children'] = [(handle, how, kept_outside)] registered by the parent's started; ctx ids: parent ctx0,
-    children ctx1.. in handle order c1, c2.."""
+    children ctx1.. in handle order c1, c2..  An entry may name its parent as a 4th element (a child handle): trees."""
     v = []
-    reg = spec['children']
-    ctx_of = {h: f"ctx{int(h[1:])}" for (h, how, kept) in reg}
-    under_m = [ctx_of[h] for (h, how, kept) in reg if how == 'register_child']
-    under_unit = [ctx_of[h] for (h, how, kept) in reg if how == 'add_child']
-    registered_at = next((i for i, e in enumerate(tr) if e[0] == 'user_done' and e[1] == 'started' and e[3] == 'ctx0'), None)
-    pterm = next((i for i, e in enumerate(tr) if e[0] in ('task_done', 'task_killed', 'task_panicked') and e[1] == 'loop'), None)
+    reg = [tuple(r) + ((None,) if len(r) == 3 else ()) for r in spec['children']]
+    ctx_of = {h: f"ctx{int(h[1:])}" for (h, how, kept, par) in reg}
+    ctx_of[None] = 'ctx0'
     child_task = {f"ctx{i}": f"loopC{i}" for i in range(1, 10)}
+    child_task['ctx0'] = 'loop'
+
+    def term_of(c):
+        return next((i for i, e in enumerate(tr) if e[0] in ('task_done', 'task_killed', 'task_panicked') and e[1] == child_task[c]), None)
     stop_ops = {}
     for o in _ops(tr):
         if o['kind'] in ('stop', 'halt') and o['arg'].startswith('c'):
             stop_ops[f"ctx{o['arg'][1:].rstrip('x')}"] = o['begin']
-    for (h, how, kept) in reg:
+    for (h, how, kept, par) in reg:
         c = ctx_of[h]
+        pc = ctx_of[par]
+        registered_at = next((i for i, e in enumerate(tr) if e[0] == 'user_done' and e[1] == 'started' and e[3] == pc), None)
+        pterm = term_of(pc)
         cstop = next((i for i, e in enumerate(tr) if e[0] == 'user_call' and e[1] == 'stopped' and e[3] == c), None)
         outside_stop = stop_ops.get(c)
         if cstop is not None and registered_at is not None and (pterm is None or cstop < pterm) and outside_stop is None:
@@ -84,9 +88,11 @@ def oracle_children(tr, status, spec):
                 if x[0] == 'user_call' and x[1] == 'handle' and str(x[4]).startswith(tag + '#'):
                     got[x[3]] = got.get(x[3], 0) + 1
             ended = status == 'quiescent'
-            targets = under_unit if str(tag).startswith('u') else under_m
+            src = next((x[2] for x in reversed(tr[:i]) if x[0] == 'bcast_from' and x[1] == tag), 'ctx0')
+            want = 'add_child' if str(tag).startswith('u') else 'register_child'
+            targets = [ctx_of[h] for (h, how, kept, par) in reg if how == want and ctx_of[par] == src]
             for c in targets:
-                cterm = next((j for j, x in enumerate(tr) if x[0] in ('task_done', 'task_killed', 'task_panicked') and x[1] == child_task[c]), None)
+                cterm = term_of(c)
                 alive_then = cterm is None or cterm > i
                 n = got.get(c, 0)
                 if n > 1:
